@@ -14,6 +14,21 @@ TV = 'translation_validation'
 
 # id -> (category, text, design_ref, level_note, technique)
 CLAIMS = {
+    'C01': (MC,
+            'Level A (BuildExpect: call f with the reported arguments, own defaults for unset parameters, '
+            'raise when a required one is missing) and level B (fiddle\'s canonical-storage to '
+            '(*args, **kwargs) transformation followed by CPython call binding) are both written in TLA+; '
+            'TLC checks that B refines A and that no value is ever bound to a different parameter in every '
+            'store state reachable through any constructor call and edits, and a negative control (the '
+            'algorithm as found) must violate it. Every distinct state is replayed on the real library for six '
+            'callable forms (constructor verdict, stored state, build result or failure, one invocation), and '
+            'random larger signatures are recorded from the real library and judged by the same BuildExpect.',
+            'DESIGN.md §5 C01',
+            'Trusted: TLC, harness projection, recording callables. Bounded: signatures <= 3 (quick) / 4 '
+            '(thorough) parameters exhaustively, <= 7 randomly. Nesting of Buildables inside containers is '
+            'decided by the FdlBuild specification (C02).',
+            'TLA+ refinement (algorithm vs statement) checked by TLC; per-state replay into fiddle; '
+            'recorded observations judged by the specification'),
     'C03': (MC,
             'TLC explores the level-A argument-store specification (FdlStore: a dict restricted to the '
             'signature plus a Python list with a fixed prefix) exhaustively for all signatures of <= 3-4 '
